@@ -18,6 +18,7 @@ def common(tier):
         J('lagsnap3-1chunk:H2R1S1', 'lagging_snap', dict(n=3), dict(H=2, R=1, S=1)),
         J('lagsnap3-chunk64:H2R1', 'lagging_snap', dict(n=3, chunk=64), dict(H=2, R=1)),
         J('deposed3:H2R2E1', 'deposed', dict(n=3), dict(H=2, R=2, E=1)),
+        J('deposed-runahead3:H2R1', 'deposed_runahead', dict(n=3), dict(H=2, R=1)),
         J('deposed3:H2R2X1', 'deposed', dict(n=3), dict(H=2, R=2, X=1)),
         J('deposedsnap3-1chunk:H2R2E1', 'deposed_snap', dict(n=3), dict(H=2, R=2, E=1)),
         J('deposedsnap3-chunk64:H2R2', 'deposed_snap', dict(n=3, chunk=64), dict(H=2, R=2)),
